@@ -1581,8 +1581,11 @@ class OperationPrebuilder(ActionPrebuilder):
         ActionPrebuilder.__init__(self, metamodel, c_c)      
 
     def find_symbol(self, node, name):
+        if name.lower() == 'self':
+            name = 'self'
+            
         v_var = ActionPrebuilder.find_symbol(self, node, name)
-        if not v_var and name.lower() == 'self':
+        if not v_var and name == 'self':
             v_int = self.v_int(node, 'self', self._o_obj)
             v_var = one(v_int).V_VAR[814]()
         
@@ -1642,8 +1645,11 @@ class TransitionPrebuilder(ActionPrebuilder):
         ActionPrebuilder.__init__(self, metamodel, c_c)
 
     def find_symbol(self, node, name):
+        if name.lower() == 'self':
+            name = 'self'
+            
         v_var = ActionPrebuilder.find_symbol(self, node, name)
-        if not v_var and name.lower() == 'self':
+        if not v_var and name == 'self':
             v_int = self.v_int(node, 'self', self._o_obj)
             v_var = one(v_int).V_VAR[814]()
         
@@ -1752,8 +1758,11 @@ class DerivedAttributePrebuilder(ActionPrebuilder):
         ActionPrebuilder.__init__(self, metamodel, c_c)      
 
     def find_symbol(self, node, name):
+        if name.lower() == 'self':
+            name = 'self'
+            
         v_var = ActionPrebuilder.find_symbol(self, node, name)
-        if not v_var and name.lower() == 'self':
+        if not v_var and name == 'self':
             v_int = self.v_int(node, 'self', self._o_obj)
             v_var = one(v_int).V_VAR[814]()
         
